@@ -29,13 +29,13 @@ const (
 	eNo = 'o' // another goroutine requests CloseNotify now (the reader is blocked)
 	eNt = 't' // CloseNotify requested after the termination
 	// terminations
-	tEOF  = 'E'
-	tERR  = 'R'
-	tBAD  = 'B' // undecodable message, nothing after it
-	tBADT = 'T' // undecodable message with trailing data in the same segment
-	tLC   = 'L' // local Close
-	tEOFd = 'e' // the rest of the message in progress (or the next whole message) and EOF in the same Read
-	tERRd = 'r' // ... and a read error in the same Read
+	tEOF   = 'E'
+	tERR   = 'R'
+	tBAD   = 'B' // undecodable message, nothing after it
+	tBADT  = 'T' // undecodable message with trailing data in the same segment
+	tLC    = 'L' // local Close
+	tEOFd  = 'e' // the rest of the message in progress (or the next whole message) and EOF in the same Read
+	tERRd  = 'r' // ... and a read error in the same Read
 	tPANIC = 'P' // the handler of the next whole message panics (recovered by the library, connection closed)
 	eW     = 'W' // a write that hits a temporary transport error and is resumed (the connection stays up)
 )
@@ -306,7 +306,9 @@ func c14Orderings(maxF, maxN int) []string {
 
 // client with watchdog: the watchdog goroutine is itself a CloseNotify user
 func runC14Client(c *ev.Case, ctx *lib.Ctx, term byte, exchanges int, lc *logCapture) {
-	sig := func(op string) ev.Sig { return ev.Sig{"op": op, "termination": string(term), "variant": "client-watchdog"} }
+	sig := func(op string) ev.Sig {
+		return ev.Sig{"op": op, "termination": string(term), "variant": "client-watchdog"}
+	}
 	settings := &sm.Settings{OriginHost: "cli.local", OriginRealm: "realm.local", VendorID: 13, ProductName: "verif",
 		HostIPAddresses: []datatype.Address{datatype.Address([]byte{192, 0, 2, 9})}}
 	machine := sm.New(settings)
